@@ -984,6 +984,70 @@ def check_docs(ctx, docs, fmts=FORMATS, modes=MODES):
               documents_skipped_reader_panic=skipped, tree="process.go %s / eventwriter.go %s" % (pmode, emode))
 
 
+def check_multifile(ctx, docs):
+    """several input files on one command line: every file is a stream of its own (its own encoding, its own symbol
+    tables, its own end), so the output must denote the values of the first file followed by those of the second ...
+    Oracle only (the model covers one input).  Parts are valid documents the Reader fully observes; text parts are also
+    used with their trailing whitespace removed, so that the last token of a file ends at the end of the file."""
+    rng = ctx.rng
+    obs = btrav_many([b for _, b in docs])
+    good = [b for _, b in docs if obs[b][1] == "ok" and len(b) < 4000]
+    if len(good) < 2:
+        return
+    text = [b for b in good if not b.startswith(b"\xe0\x01\x00\xea")]
+    binary = [b for b in good if b.startswith(b"\xe0\x01\x00\xea")]
+    stripped = [b.rstrip() for b in text if b.rstrip() and b.rstrip() != b]
+    obs.update(btrav_many(stripped))
+    stripped = [b for b in stripped if obs[b][1] == "ok"]
+    fixed = [b"abc", b"def", b"1", b"2", b"\"s\"", b"x // comment", b"[1,2]", b"{a:1}", b"$ion_symbol_table::{symbols:[\"q\"]} $10"]
+    obs.update(btrav_many(fixed))
+    groups = [[b"abc", b"def"], [b"1", b"2"], [b"x // comment", b"y\n"], [b"1", b"[1,2]", b"2"],
+              [b"$ion_symbol_table::{symbols:[\"q\"]} $10", b"name"]]
+    obs.update(btrav_many([b"y\n", b"name"]))
+    pools = [p for p in (stripped, text, binary) if p]
+    for _ in range(ctx.scale(60, 600)):
+        k = rng.choice([2, 2, 2, 3])
+        groups.append([rng.choice(rng.choice(pools)) for _ in range(k)])
+    for b in binary[:10]:
+        if stripped:
+            groups.append([rng.choice(stripped), b])
+            groups.append([b, rng.choice(stripped)])
+    lines, meta = [], []
+    for g in groups:
+        if any(obs[p][1] != "ok" for p in g):
+            continue
+        for f in ("text", "pretty", "binary"):
+            lines.append("cli %s files %s" % (f, " ".join(iongen.hx(p) for p in g)))
+            meta.append((g, f))
+    go = run_go(lines, per_case_timeout=25, extra_env={"VH_IONGO": IONGO})
+    res = [parse_cli(x) for x in go]
+    reread = btrav_many([r[2] for r in res if r[0] == "ok"] + [r[3] for r in res if r[0] == "ok"])
+    bad = 0
+    for ln, (g, f), r in zip(lines, meta, res):
+        want = canon_obs([v for p in g for v in obs[p][0]])
+        why = None
+        if r[0] != "ok":
+            why = "ion-go process %s: %s" % (r[0], str(r[1:])[:200])
+        else:
+            _, status, out, rep = r
+            o_forest, o_status, _ = reread[out]
+            rep_forest, rep_status, _ = reread[rep]
+            reps = parse_report(rep_forest) if rep_status == "ok" else None
+            if status != 0:
+                why = "exit status %d" % status
+            elif reps is None or reps:
+                why = "valid input files, but the error report is %r" % rep[:200]
+            elif o_status != "ok":
+                why = "output is not readable Ion (%s): %r" % (o_status, out[:200])
+            elif canon_obs(o_forest) != want:
+                why = "output denotes '%s' but the input files denote '%s'" % (canon_obs(o_forest)[:300], want[:300])
+        if why:
+            bad += 1
+            ctx.fail("property", "C20-cli-multifile", ln, "%d input files %r: %s" % (len(g), [p[:40] for p in g], why), None)
+    ctx.count("C20-cli-multifile", len(lines), lines, sample={"case": lines[0][:160], "answer": go[0][:160]} if lines else None,
+              failures=bad, groups=len(groups))
+
+
 def run(ctx):
     ok, log = build_iongo()
     if not ok:
@@ -991,6 +1055,7 @@ def run(ctx):
         return
     docs = make_docs(ctx)
     check_docs(ctx, docs)
+    check_multifile(ctx, docs)
 
 
 def replay(ctx, rp):
